@@ -22,7 +22,7 @@ run $B0 addr $S 20000 $T/o; run $B0 endian $S 20000 $T/o; run $B0 bitmap $S 3000
 run $B0 slice $S 60000 $T/o streams; run $B0 slice $S 60000 $T/o
 for m in mixed edit exhaustive; do run $B0 gm $S $([ $m = exhaustive ] && echo 60 || echo 30000) $T/o $m; done
 run $B0 copy $S 3000 $T/o; run $B0 atomic $S 3000 $T/o; run $B0 amem $S 6000 $T/o; run $B0 build $S 3000 $T/o; run $B0 life $S 2500 $T/o
-run $B1 gm $S 8000 $T/o xen
+run $B1 gm $S 8000 $T/o xen; run $B1 xbuild $S 6000 $T/o
 $BIN/llvm-profdata merge -sparse $T/prof/*.profraw -o $T/all.profdata
 $BIN/llvm-cov report $B0 -object $B1 -instr-profile=$T/all.profdata --sources /repo/src 2>/dev/null | sed 's#/repo/##' > "$OUT/summary.txt"
 $BIN/llvm-cov export $B0 -object $B1 -instr-profile=$T/all.profdata --sources /repo/src -format=lcov 2>/dev/null > $T/lcov.info
